@@ -370,6 +370,30 @@ func runC10(rc *RunCtx) {
 			}
 		}
 	}
+	// neighbours of the role holders: addresses that differ from a holder's in one bit, in two bytes changed alike, in a
+	// compensating pair, in two bytes exchanged, reversed, complemented - none of them holds the role
+	if rc.Shard == 2%rc.NShards {
+		if e, err := StdEngine(rc, false, false, nil); err == nil {
+			e.Exec(Tx{Msgs: msgs1(&ct.MsgUpdateOwner{From: e.M.Owner, NewOwner: Acct(OtherIx)}), Note: "C10 near holders: a pending owner exists"})
+			for ti, at := range adminTypes {
+				holder := map[string]string{"owner": e.M.Owner, "am": e.M.AM, "pauser": e.M.Pauser, "tc": e.M.TC, "pending": e.M.Pending}[at.Role]
+				if !validAddr(holder) {
+					continue
+				}
+				for k := 0; k < rc.Pick(60, 480); k++ {
+					from := Bech(nearAddr(addrBytes(holder), k+ti*5))
+					tx := Tx{Msgs: msgs1(at.Make(e.M, from, ti+k)), Note: "C10 " + at.Name + " by a neighbour of the role holder"}
+					r := e.Exec(tx)
+					rc.Cov.Assert("C10.near-holders-unauthorised")
+					rc.Cov.Cell("C10_near_holders", fmt.Sprintf("%s/%v", at.Name, map[bool]string{true: "ok", false: "fail"}[r.OK]))
+					if r.OK {
+						e.viol([]string{"C10"}, "authorisation-oracle", fmt.Sprintf("C10:%s:near-holder:ok", at.Name),
+							fmt.Sprintf("%s succeeded for submitter %s, a neighbour of the holder %s", at.Name, from, holder), e.caseOf(&tx, ""))
+					}
+				}
+			}
+		}
+	}
 	// previous holder immediately after each kind of role update; and an upper-case spelled outsider
 	if rc.Shard == 0 {
 		for ui := 0; ui < 5; ui++ {
